@@ -188,6 +188,17 @@ func (p *Pegnet) SelectTransactionHistoryStatus(hash *factom.Bytes32) (uint32, i
 	return height, executed, nil
 }
 
+// IsTransactionHistoryRecorded returns true if a batch with this entry hash has already been
+// recorded in the history (pending, executed or rejected).
+func (p *Pegnet) IsTransactionHistoryRecorded(tx *sql.Tx, hash *factom.Bytes32) (bool, error) {
+	var count int
+	err := tx.QueryRow("SELECT COUNT(*) FROM pn_history_txbatch WHERE entry_hash = ?", hash[:]).Scan(&count)
+	if err != nil {
+		return false, err
+	}
+	return count > 0, nil
+}
+
 // SetTransactionHistoryExecuted updates a transaction's executed status
 func (p *Pegnet) SetTransactionHistoryExecuted(tx *sql.Tx, txbatch *fat2.TransactionBatch, executed int64) error {
 	stmt, err := tx.Prepare(`UPDATE "pn_history_txbatch" SET executed = ? WHERE entry_hash = ?`)
